@@ -220,6 +220,12 @@ def clear (rs : List Reloc) (off n : Nat) : Prop :=
 instance (rs : List Reloc) (off n : Nat) : Decidable (clear rs off n) := by
   unfold clear; infer_instance
 
+/-- the only calls the recording writer refuses although direct writing accepts them: symbolic
+`.eh_frame` pointers whose format has no fixed size (LEB128) or is unknown -/
+def SymSized : Call → Prop
+  | .ehPointer (.sym _ _) ehPe size => ∃ n, ehSymSize ehPe size = .ok n
+  | _ => True
+
 /-- the side condition for one call: a positioned non-relocating write is clear of the recorded
 fields -/
 def CallClear (rs : List Reloc) : Call → Prop
